@@ -109,7 +109,18 @@ func TestMain(m *testing.M) {
 			"and is counted on both sides from then on; a collection pass is invisible. Non-trivial there = a limit was set while streams charged to that scope were open, or an open was refused by a limit, or a peer whose own "+
 			"scope was collected (it was away during a pass) while the protocol / service scope stayed in use opens that protocol again. Labels limit:..., open:..., collect:..., close:..., reconnect count the cases containing such a step. "+
 			"TestScopesSmall: 3 hosts, {nobody, C->B, B->C keeps an X stream open at B} x {no limit, limit on X before first use, on X / on the peer's scope while A's stream is open} x first opener x "+
-			"{A's stream closed, A disconnects, B disconnects} x {no pass, pass at B, at A and B, a minute passes} x returning opener x service attached or not, then limit := exactly full, refused open, oldest stream closed, admitted open.",
+			"{A's stream closed, A disconnects, B disconnects} x {no pass, pass at B, at A and B, a minute passes} x returning opener x service attached or not, then limit := exactly full, refused open, oldest stream closed, admitted open. "+
+			"Per-peer limits (the part of a protocol's / service's scope that belongs to ONE peer): in 2/3 of the TestScopes cases the hosts' resource managers are CONFIGURED (PartialLimitConfig.ProtocolPeer / ServicePeer over infinite "+
+			"defaults; these sub-scopes cannot be reached through View, so they are configuration, not run-time steps) with per-peer limits of 1..3 streams (total / inbound / inbound+outbound / total+inbound) on a quarter of the "+
+			"(host, protocol) and (host, service) pairs, the hot-spot pair in 3/4; and a 'burst' step (at most two per case, on top of the 4..16 steps) makes ONE peer open one protocol over and over (3/4 of the draws: a protocol a per-peer limit applies to): churn = open, end the stream "+
+			"(both ends 4/6, opener only, handler only), as many rounds as the limit or one more; pile = opens with no close up to one or two beyond the limit. The per-peer sub-scopes enter the same reference model as further scopes a stream is "+
+			"charged to while it is open (opener: protocol-peer; responder: protocol-peer and, with a service-attaching handler, service-peer); their Stat() cannot be read, so they are judged through admission: an open the model admits must "+
+			"reach its handler (streams that ended are no longer charged to the peer's share), an open beyond the share is refused (no handler if the protocol's share refuses, the handler's SetService fails if the service's share does) "+
+			"and after every refusal the readable scopes (protocol, peer, service) still count exactly the open streams, so other peers' opens are admitted. A case with an open through a configured per-peer limit is non-trivial. "+
+			"Labels config:per-peer-..., burst:churn|pile, open:through-a-per-peer-limit:<which>, open:refused-by-per-peer-limit:<which>, open:admitted-after-the-peer-ended-at-least-its-per-peer-limit-of-streams:<which | service-attached-handler>, "+
+			"open:admitted-while-another-peer-is-at-its-per-peer-limit-of-the-protocol count the cases containing such an open. "+
+			"TestPerPeerSmall: 3 hosts, one per-peer limit {B protocol-peer total, B protocol-peer inbound, B service-peer total, A protocol-peer outbound} x L=1..3 x service attached or not x stream ends {both, opener then handler} x "+
+			"1..2 opens beyond the limit; history: L+1 rounds of open+end by A, A piles up L+extra opens, C opens, A's oldest stream ends, A opens again.",
 		"go-multistream (select / lazy select / muxer) is a trusted dependency, exercised but not modelled",
 		"handler changes are applied between batches of opens, never concurrently with an open, so 'installed when the open started' is well defined; "+
 			"the batch starts at quiescence (synctest.Wait), except in the both-directions rounds marked no_settle, where only the identify pushes caused by the changes are still in flight "+
@@ -125,7 +136,7 @@ func TestMain(m *testing.M) {
 			"the first Read (also one into an empty buffer) must return an error and no data; for a stream closed at once only 'no application handler runs' is demanded",
 		"not generated as first operations: Reset, CloseRead, deadline-only use; a stream the dialer resets may or may not reach a handler, the statement is silent there",
 		"resource-scope histories: 'charged to the scope' is read as 'counted by the scope's Stat() and against its limit' (the resource manager's documented meaning); limits other than stream counts (memory, connections, FDs) and the "+
-			"system / transient / per-peer-per-protocol scopes stay unlimited; only BasicHosts (BlankHost ignores the scope's answer); steps are applied at quiescence, one open at a time; "+
+			"system / transient scopes stay unlimited; per-peer protocol / service limits are fixed for the life of a host (configuration), all other limits are set at run time; only BasicHosts (BlankHost ignores the scope's answer); steps are applied at quiescence, one open at a time; "+
 			"rcmgr.VerifGC (verif build tag) is trusted to run exactly what the background job runs",
 	)
 	hx.Main(m)
